@@ -239,9 +239,10 @@ PROPS = {
         "facts": ["walk_defaults_nil_control", "exec_writeback_guarded"],
         "runs": {
             "quick": [("walk", ["-profile", "failing", "-n", "2500"]), ("step", ["-profile", "timeouts", "-n", "400"]),
-                      ("match", ["-profile", "c03", "-n", "1500", "-reps", "2"])],
+                      ("match", ["-profile", "c03", "-n", "1500", "-reps", "2"]), ("compile", ["-n", "300"])],
             "thorough": [("walk", ["-profile", "failing", "-n", "40000"]), ("step", ["-profile", "timeouts", "-n", "3000"]),
-                         ("step", ["-profile", "failing", "-n", "40000"]), ("match", ["-profile", "c03", "-n", "30000", "-reps", "2"])],
+                         ("step", ["-profile", "failing", "-n", "40000"]), ("match", ["-profile", "c03", "-n", "30000", "-reps", "2"]),
+                         ("compile", ["-n", "6000"])],
         },
         "analyze": analyze_generic,
         "oracles": ["total", "errorSurfaced"],
@@ -363,5 +364,24 @@ PROPS = {
                  "guards, missing, empty and @variable targets, nil and empty branch lists, unreachable nodes); Analyze, Dot and Mermaid "
                  "run on the compiled spec; analysis fields compared as sets/counts, rendered node declarations and edges parsed back "
                  "from the DOT / Mermaid text and compared with the model.  Non-trivial: more than one node."),
+    },
+    "C13": {
+        "modules": ["Sheens.Props.C13"],
+        "theorems": [],
+        "facts": [],
+        "runs": {
+            "quick": [("compile", ["-n", "600"])],
+            "thorough": [("compile", ["-n", "10000"])],
+        },
+        "analyze": analyze_generic,
+        "oracles": ["total", "modelIdempotent"],
+        "probes": ["reprIndependent", "compileIdempotent", "reloadSame"],
+        "rule": ("specification documents derived from random spec graphs (ECMAScript action and guard sources): as they are, with "
+                 "every pattern turned into JSON text under patternSyntax json, with bare string / bare variable patterns, and malformed "
+                 "(null node, null branch, unknown interpreter, unknown branching type, unknown pattern syntax, broken source, broken "
+                 "pattern text, no nodes).  Every document is compiled by the implementation and by the model (outcome class and compiled "
+                 "structure compared); well-formed ones are additionally loaded as JSON, as YAML by the repository's loader and by the "
+                 "sio crew's loader, with JSON-text patterns, compiled three times, and dumped and reloaded; all variants are walked over "
+                 "three fixed message sequences and must behave identically.  Non-trivial: more than one node."),
     },
 }
